@@ -125,6 +125,20 @@ def gen_case(rng, patterns_p=0.0, single_p=0.1, out_modes=("abs", "abs", "rel", 
                     dict(name="v.cmake", kind="f", content=treeh.simple_module(rng, "v"))])])
             if not any(n["name"] == "third_party" for n in c["tree"]):
                 c["tree"].append(deep)
+        if rng.random() < 0.12:
+            # a symbolic link to a directory (target outside the input tree) at the top or inside a
+            # sub-directory; followed or not (input.follow_symlinks)
+            kids = rng.choice([[dict(name="linked_mod.cmake", kind="f", content=treeh.simple_module(rng, "lk"))],
+                               [dict(name="README.md", kind="f", content=b"x\n")],
+                               [dict(name="l1.cmake", kind="f", content=treeh.simple_module(rng, "l1")),
+                                dict(name="deep", kind="d", children=[
+                                    dict(name="l2.cmake", kind="f", content=treeh.simple_module(rng, "l2"))])]])
+            link = dict(name=rng.choice(["zz_link", "linked", "ext"]), kind="d", link=True, children=kids)
+            dirs = [n for _, n in treeh.walk_tree(c["tree"]) if n["kind"] == "d" and not n.get("link")]
+            host = rng.choice([c["tree"]] + [d["children"] for d in dirs])
+            if not any(n["name"] == link["name"] for n in host):
+                host.insert(rng.randrange(len(host) + 1), link)
+                c["follow"] = rng.random() < 0.4
         c["input_name"] = rng.choice(["in", "in", "proj", "my.proj", "Tree-1"])
     c["recursive"] = rng.random() < 0.6
     c["auto_exclude"] = rng.random() < 0.7
@@ -182,6 +196,8 @@ def dist(rep, case, name):
     for k in ("recursive", "auto_exclude", "ext_titles", "ext_modules"):
         if case.get(k):
             rep.dist(f"{name}:{k}")
+    if "tree" in case and any(n.get("link") for _, n in treeh.walk_tree(case["tree"])):
+        rep.dist(f"{name}:symlinked_directory_" + ("followed" if case.get("follow") else "not_followed"))
     rep.dist(f"{name}:out_{case.get('out')}")
     rep.dist(f"{name}:spelling_{case.get('spelling')}")
     rep.dist(f"{name}:patterns", len(case.get("patterns_cli", [])) + len(case.get("patterns_cfg", [])))
